@@ -236,6 +236,40 @@ where
     Ok(())
 }
 
+/// Two iterators alive at the same time (over two digraphs), polled in turn:
+/// each must list its own sequence.
+pub fn interleaved<T, I, J>(what: &str, a: I, want_a: &[T], b: J, want_b: &[T]) -> Verdict
+where
+    T: PartialEq + Debug,
+    I: Iterator<Item = T>,
+    J: Iterator<Item = T>,
+{
+    let (mut a, mut b) = (a, b);
+    let (mut got_a, mut got_b) = (vec![], vec![]);
+    let mut turn = 0_usize;
+    loop {
+        // a, b, b, a, a, b, ... so that neither is always polled first
+        let first_a = turn % 3 != 1;
+        turn += 1;
+        let (x, y) = if first_a {
+            let x = a.next();
+            (x, b.next())
+        } else {
+            let y = b.next();
+            (a.next(), y)
+        };
+        let done = x.is_none() && y.is_none();
+        got_a.extend(x);
+        got_b.extend(y);
+        if done || got_a.len() + got_b.len() > want_a.len() + want_b.len() + 4 {
+            break;
+        }
+    }
+    ensure!(got_a == want_a, "{what}: with a second iterator alive and polled in turn, the first lists {got_a:?}, expected {want_a:?}");
+    ensure!(got_b == want_b, "{what}: with a second iterator alive and polled in turn, the second lists {got_b:?}, expected {want_b:?}");
+    Ok(())
+}
+
 /// A clone taken after k steps must continue exactly like the original.
 pub fn clone_consistency<T, I>(what: &str, make: impl Fn() -> I, len: usize) -> Verdict
 where
@@ -384,6 +418,31 @@ pub fn check_queries_opt<D: Queries>(g: &D, name: &str, m: &UModel, walks: &[Vec
         protocol(&format!("{name}: sinks()"), || g.sinks(), &sinks)?;
         protocol(&format!("{name}: sources()"), || g.sources(), &sources)?;
     }
+    // two live iterators at once: this digraph and a copy without its first arc
+    if with_protocol && vs.len() <= 64 {
+        let mut g2 = g.clone();
+        let mut m2 = m.clone();
+        if let Some(&(u, v)) = m.arcs().first() {
+            let _ = g2.remove_arc(u, v);
+            m2.a.remove(&(u, v));
+        }
+        let deg2: Vec<usize> = vs.iter().map(|&v| m2.indeg(v) + m2.outdeg(v)).collect();
+        interleaved(&format!("{name}: degree_sequence()"), g.degree_sequence(), &want, g2.degree_sequence(), &deg2)?;
+        interleaved(&format!("{name}: degree_sequence() (same digraph twice)"), g.degree_sequence(), &want, g.degree_sequence(), &want)?;
+        interleaved(&format!("{name}: arcs()"), g.arcs(), &m.arcs(), g2.arcs(), &m2.arcs())?;
+        let in2: Vec<usize> = vs.iter().map(|&v| m2.indeg(v)).collect();
+        let out2: Vec<usize> = vs.iter().map(|&v| m2.outdeg(v)).collect();
+        interleaved(&format!("{name}: indegree_sequence()"), g.indegree_sequence(), &indeg, g2.indegree_sequence(), &in2)?;
+        interleaved(&format!("{name}: outdegree_sequence()"), g.outdegree_sequence(), &outdeg, g2.outdegree_sequence(), &out2)?;
+        let sinks2: Vec<usize> = vs.iter().copied().filter(|&v| m2.outdeg(v) == 0).collect();
+        let sources2: Vec<usize> = vs.iter().copied().filter(|&v| m2.indeg(v) == 0).collect();
+        interleaved(&format!("{name}: sinks()"), g.sinks(), &sinks, g2.sinks(), &sinks2)?;
+        interleaved(&format!("{name}: sources()"), g.sources(), &sources, g2.sources(), &sources2)?;
+        for &v in probe.iter().take(2).chain(probe.last()) {
+            interleaved(&format!("{name}: out_neighbors({v})"), g.out_neighbors(v), &m.out(v), g2.out_neighbors(v), &m2.out(v))?;
+            interleaved(&format!("{name}: in_neighbors({v})"), g.in_neighbors(v), &m.inn(v), g2.in_neighbors(v), &m2.inn(v))?;
+        }
+    }
     let is: Vec<usize> = g.indegree_sequence().collect();
     ensure!(is == indeg, "{name}: indegree_sequence() = {is:?}, definition {indeg:?}");
     let os: Vec<usize> = g.outdegree_sequence().collect();
@@ -504,7 +563,7 @@ impl Prop for C02 {
     type Case = Case;
     const ID: &'static str = "C02";
     const NUM: u64 = 2;
-    const RULE: &'static str = "digraphs of order 1..40 (quick) / 1..130 (thorough), about one in 25 at a large order (17..140, incl. 63..66, 127..130), and a low-rate 'huge' leg (orders 200..3100 with O(n) arcs, rows of exactly 255/256/257 out-neighbours, arcs in the last rows; per-vertex and per-pair queries on a sample of ids there) built into all five representations through empty + add_arc[_weighted], plus AdjacencyMap digraphs with non-contiguous ids; every vertex, every ordered pair over V + {order, order+1, max id+1, 1000, usize::MAX}, 8 vertex sequences per case (genuine random walks of length 0,1,2,..12, each optionally corrupted at one uniformly chosen position or extended by one arbitrary step, ids outside V included); a generated CPU count k (AdjacencyList::degree_sequence is threaded); enum leg: every digraph of order <=3 (quick) / <=4 (thorough). The iterators of arcs, vertices, out/in_neighbors, sinks, sources and degree_sequence are also driven through next()-then-count/last/fold/nth/collect at several split points with size_hint checked. Non-trivial = size >=3, some vertex of indegree >=2, at least one false and one true has_walk answer over sequences of length >=2, and an id outside V was queried (always); distinct = distinct serialised case.";
+    const RULE: &'static str = "digraphs of order 1..40 (quick) / 1..130 (thorough), about one in 25 at a large order (17..140, incl. 63..66, 127..130), and a low-rate 'huge' leg (orders 200..3100 with O(n) arcs, rows of exactly 255/256/257 out-neighbours, arcs in the last rows; per-vertex and per-pair queries on a sample of ids there) built into all five representations through empty + add_arc[_weighted], plus AdjacencyMap digraphs with non-contiguous ids; every vertex, every ordered pair over V + {order, order+1, max id+1, 1000, usize::MAX}, 8 vertex sequences per case (genuine random walks of length 0,1,2,..12, each optionally corrupted at one uniformly chosen position or extended by one arbitrary step, ids outside V included); a generated CPU count k (AdjacencyList::degree_sequence is threaded); enum leg: every digraph of order <=3 (quick) / <=4 (thorough). The iterators of arcs, vertices, out/in_neighbors, sinks, sources and degree_sequence are also driven through next()-then-count/last/fold/nth/collect at several split points with size_hint checked. Two iterators of the same query (over the digraph and over a copy without its first arc) are also kept alive together and polled in turn. is_source / is_sink / max_* / min_* are also evaluated on a user-side wrapper that inherits the provided trait methods. Non-trivial = size >=3, some vertex of indegree >=2, at least one false and one true has_walk answer over sequences of length >=2, and an id outside V was queried (always); distinct = distinct serialised case.";
     const ASSUMPTIONS: &'static [&'static str] = &[
         "queries documented to panic for a vertex outside V are only called with vertices in V",
         "is_source / in_neighbors outside V are not judged",
